@@ -13,7 +13,7 @@ b. bounded histories: every parent vector for up to 6 (quick 5) blocks as symbol
 from __future__ import annotations
 
 import sys
-from typing import Any, Dict, List, Tuple
+from typing import Any, Dict, List, Optional, Tuple
 
 from symlib.runner import Ob
 from symlib.common import generic_replay, twin_of
@@ -40,7 +40,7 @@ def step(p_is_c: bool, p_in_heads: bool, twin: bool = False, real: bool = False)
     env = Env(real=real)
     M = env.Map
 
-    def check_step(hp: int, hc: int, hb: int) -> bool:
+    def check_step(hp: int, hc: int, hb: int, tsel: int = 0) -> bool:
         """
         post: _
         """
@@ -48,6 +48,8 @@ def step(p_is_c: bool, p_in_heads: bool, twin: bool = False, real: bool = False)
         if not (0 <= hp < 0xFFFFFFFF and 0 <= hc <= 0xFFFFFFFF and 0 <= hb <= 0xFFFFFFFF):
             return True
         if p_is_c and hp != hc:
+            return True
+        if not (0 <= tsel <= 15):
             return True
         # Inv: the head has the greatest height
         if not (hc >= hp and hc >= hb):
@@ -58,17 +60,20 @@ def step(p_is_c: bool, p_in_heads: bool, twin: bool = False, real: bool = False)
         # Block ids are concrete tokens. The real map type iterates in an order that depends on the ids' hash values, so the
         # replay (real mode) tries several id assignments: a violation for the model's heights under any of them is real.
         for variant in (range(8) if real else range(1)):
-            if not _one(hp, hc, hb, variant):
+            if not _one(hp, hc, hb, variant, tsel):
                 return False
         return True
 
-    def _one(hp: int, hc: int, hb: int, variant: int) -> bool:
+    def _one(hp: int, hc: int, hb: int, variant: int, tsel: int) -> bool:
         o = 16 * variant
         cb = env.coinbase(0, [], tok(TX, 1))
         A = env.block(hp - 1 if hp > 0 else 0, ZERO32, [cb], tok(BLK, 9 + o))           # an ancestor entry of P's index
-        P = env.block(hp, tok(BLK, 9 + o), [cb], tok(BLK, 1 + o))
-        C = P if p_is_c else env.block(hc, tok(BLK, 8 + o), [cb], tok(BLK, (2 + o) if variant % 2 == 0 else (5 + o)))
-        B = env.block(hb, tok(BLK, 7 + o), [cb], tok(BLK, (3 + o) if variant % 2 == 0 else (0 + o)))
+        # stated targets differ between the blocks (as they do across a retarget): total work is the height all the same
+        EASY, HARD = b"\xff" * 32, b"\x00" * 4 + b"\xff" * 28
+        P = env.block(hp, tok(BLK, 9 + o), [cb], tok(BLK, 1 + o), target=HARD if tsel & 1 else EASY)
+        C = P if p_is_c else env.block(hc, tok(BLK, 8 + o), [cb], tok(BLK, (2 + o) if variant % 2 == 0 else (5 + o)),
+                                       target=HARD if tsel & 2 else EASY)
+        B = env.block(hb, tok(BLK, 7 + o), [cb], tok(BLK, (3 + o) if variant % 2 == 0 else (0 + o)), target=HARD if tsel & 4 else EASY)
         idxP = env.mk_map([(hp, P)]) if hp == 0 else env.mk_map([(hp - 1, A), (hp, P)])
         idxC = idxP if p_is_c else env.mk_map([(hc, C)])
         idxB = env.mk_map([(hb, B)])
@@ -89,7 +94,7 @@ def step(p_is_c: bool, p_in_heads: bool, twin: bool = False, real: bool = False)
         pre = env.state(bbh, utx, bhh, heads, C.hash())
         pre_items = {n: list(getattr(pre, n).items()) for n in
                      ("block_by_hash", "unspent_transaction_outs_by_hash", "block_by_height_by_hash", "heads")}
-        N = env.block(hp + 1, P.hash(), [env.coinbase(hp + 1, [], tok(TX, 2))], tok(BLK, 4 + o))
+        N = env.block(hp + 1, P.hash(), [env.coinbase(hp + 1, [], tok(TX, 2))], tok(BLK, 4 + o), target=HARD if tsel & 8 else EASY)
         post = pre.add_block_no_validation(N)
         if twin:
             return False
@@ -136,7 +141,7 @@ def step(p_is_c: bool, p_in_heads: bool, twin: bool = False, real: bool = False)
             return False
         return True
 
-    return check_step, {"hp": 3, "hc": 3 if p_is_c else 5, "hb": 2}
+    return check_step, {"hp": 3, "hc": 3 if p_is_c else 5, "hb": 2, "tsel": 0}
 
 
 # -- bounded histories ---------------------------------------------------------------------------
@@ -161,13 +166,16 @@ def _reference(parents: List[int]) -> Tuple[int, List[int], Dict[int, List[int]]
     return head, tips, anc
 
 
-def histories(n: int, twin: bool = False, real: bool = False):
+def histories(n: int, fix: Optional[Tuple[int, int]] = None, twin: bool = False, real: bool = False):
+    """fix: (p2, p3) pinned - case split that spreads the 7-block trees over the cores."""
     env = Env(real=real)
 
     def check_histories(p2: int, p3: int, p4: int, p5: int, p6: int = 0) -> bool:
         """
         post: _
         """
+        if fix is not None and (p2, p3) != tuple(fix):
+            return True
         pv = [p2, p3, p4, p5, p6][:max(0, n - 2)]
         for u in [p2, p3, p4, p5, p6][max(0, n - 2):]:
             if u != 0:
@@ -216,7 +224,7 @@ def histories(n: int, twin: bool = False, real: bool = False):
             return False
         return True
 
-    return check_histories, {"p2": 0, "p3": 0, "p4": 0, "p5": 0, "p6": 0}
+    return check_histories, {"p2": fix[0] if fix else 0, "p3": fix[1] if fix else 0, "p4": 0, "p5": 0, "p6": 0}
 
 
 def obligations(tier: str, known: List[str]) -> List[Ob]:
@@ -225,9 +233,14 @@ def obligations(tier: str, known: List[str]) -> List[Ob]:
         obs.append(Ob("step[P-is-head=%s,P-is-tip=%s]" % (p_is_c, p_in_heads), C_HEAD + "; " + C_TIPS + "; " + C_IDX, "step",
                       {"p_is_c": p_is_c, "p_in_heads": p_in_heads}, timeout=300))
     obs.append(twin_of(obs[1]))
-    for n in ((2, 3, 4, 5, 6, 7) if tier == "thorough" else (2, 3, 4, 5)):
+    for n in ((2, 3, 4, 5, 6) if tier == "thorough" else (2, 3, 4, 5)):
         obs.append(Ob("histories[blocks=%d]" % n, C_HEAD + "; " + C_TIPS + "; " + C_IDX, "histories", {"n": n},
                       timeout=900 if tier == "thorough" else 300))
+    if tier == "thorough":
+        for p2 in (0, 1):
+            for p3 in (0, 1, 2):
+                obs.append(Ob("histories[blocks=7,p2=%d,p3=%d]" % (p2, p3), C_HEAD + "; " + C_TIPS + "; " + C_IDX, "histories",
+                              {"n": 7, "fix": (p2, p3)}, timeout=2400))
     obs.append(twin_of(obs[-1]))
     return obs
 
